@@ -298,7 +298,18 @@ fn run_one(text: &str) {
                 if let Some(n) = kv(&tok, "split_after").filter(|s| *s != "none") {
                     b.split_after(n.parse().unwrap());
                 }
+                // cancel_from=N: the cancellation callback answers true from its N-th poll on
+                let cancel_from: Option<usize> = kv(&tok, "cancel_from").map(|s| s.parse().unwrap());
+                let polls = std::sync::Arc::new(std::sync::atomic::AtomicUsize::new(0));
+                if let Some(n) = cancel_from {
+                    let polls = polls.clone();
+                    b.cancel(move || polls.fetch_add(1, std::sync::atomic::Ordering::SeqCst) + 1 >= n);
+                }
                 match b.build(&mut wtxn) {
+                    Err(crate::Error::BuildCancelled) if cancel_from.is_some() => {
+                        println!("STEP build cancelled (the caller aborts the transaction: scenario ends)");
+                        break;
+                    }
                     Ok(()) => println!("STEP build ok"),
                     Err(e) => {
                         println!("STEP build error: {e}");
